@@ -61,9 +61,17 @@ W6 == { <<Boot, LBoot, PRet(0, "bootcap", 9, 0 - 1), LKeep("boot", 100)>> \o pre
           pre \in { <<>>, <<LPipe(100, 4)>> },
           post \in { <<LPipe(100, 6), Pump, Pump, Pump>>, <<Pump, LPipe(100, 6), Pump, Pump>>, <<LPipe(100, 6), LPipe(100, 7), Pump, Pump, Pump>> } }
 
+\* W7: a local call on an import is parked while it builds its parameters; the last local reference to the import is dropped
+\* (the Release waits for the call), and the peer sends the same import again: the connection hands out a new client for the
+\* table entry that is about to go, and every reference received must still be counted
+LPark(h, t) == [Act("l-call") EXCEPT !.h = h, !.tag = t, !.kind = "parkargs"]
+W7 == { <<Boot, LBoot, PRet(0, "bootcap", 9, 0 - 1), LPark("boot", 101), LRel("boot")>> \o x \o <<Go>> \o y \o <<PRet(1, "results", 0 - 1, 101)>> :
+          x \in { <<Call(2, 1, 1, "root", 9)>>, <<Call(2, 1, 1, "root", 9), Call(3, 1, 2, "root", 9)>>, <<>> },
+          y \in { <<>>, <<Ret(1, "ok-nocap"), Fin(2, FALSE)>>, <<Call(4, 1, 3, "root", 9)>> } }
+
 VARIABLE done
 Init == done = FALSE
 Next == /\ ~done /\ done' = TRUE
-        /\ \A s \in W1 \cup W2 \cup W3 \cup W4 \cup W5 \cup W6 : PrintT(<<"SCRIPT", ToJson(s)>>)
+        /\ \A s \in W1 \cup W2 \cup W3 \cup W4 \cup W5 \cup W6 \cup W7 : PrintT(<<"SCRIPT", ToJson(s)>>)
 Spec == Init /\ [][Next]_done
 =============================================================================
